@@ -109,3 +109,87 @@ for _pid in ("C01", "C02", "C03", "C04", "C11", "C16"):
 
 def run_property(pid, rep, replay=None):
     return REGISTRY[pid](pid, rep, replay=replay)
+
+
+# ----------------------------------------------------------------------------- search family
+from . import searchchk  # noqa: E402
+
+SEARCH_SIZES = {"quick": {"C06": (60, 3), "C18": (60, 3)}, "thorough": {"C06": (1500, 5), "C18": (1500, 5)}}
+
+
+def search_property(pid, rep, replay=None):
+    rep.broken = None
+    info = prove(pid, rep)
+    profiles = ("release", "checked") if pid == "C08" else ("release",)
+    if not build_impl(rep, profiles=profiles):
+        proof_coverage(rep, info, {})
+        return finish(rep, info)
+    tier = rep.tier if rep.broken is None else "thorough"
+    if pid in ("C06", "C18"):
+        stats, kinds, cases = searchchk.check_legality(rep, pid, SEARCH_SIZES[tier][pid], rep.seed)
+        rule = ("histories of 1-5 searches sharing one table (same game, other games, deeper then shallower limits, dead and "
+                "single-reply roots, repeated-move history); distinct = searches whose result was checked against the rules")
+        distinct = stats.get("searches", 0)
+    elif pid == "C07":
+        stats, kinds, cases = searchchk.check_stop(rep, tier, rep.seed)
+        rule = "stop flag cleared after exactly N node-entry polls (hook), N sampled incl. 0, 1, last (quick) or every N (thorough); distinct = (position, N) pairs"
+        distinct = stats.get("stop_points", 0)
+    elif pid == "C08":
+        stats, kinds, cases = searchchk.check_depth_limit(rep, tier, rep.seed)
+        rule = "search to depth a then limit b<a on the same table, depth 0 and 200, unlimited runs on tiny trees under a poll budget, checked build; distinct = searches"
+        distinct = stats.get("searches", 0)
+    elif pid == "C09":
+        stats, kinds, cases = searchchk.check_pruning(rep, tier, rep.seed)
+        rule = "table-less (hook) iterative and single-depth searches on small positions vs the unpruned reference evaluated by the Lean specification; distinct = (position, depth) values compared"
+        distinct = stats.get("values_compared", 0)
+    elif pid == "C10":
+        stats, kinds, cases = searchchk.check_mates(rep, tier, rep.seed)
+        rule = "mate-in-one positions found by the independent Lean solver among composed and walked positions, searched with limits 3, 4, none; dead roots; distinct = searches"
+        distinct = stats.get("searches", 0)
+    proof_coverage(rep, info, {
+        "evaluations": stats.get("ops_compared", 0), "distinct_nontrivial": distinct, "rule": rule,
+        "samples": [cases[min(len(cases) - 1, 5)]] if cases else [], "stats": dict(stats), "kinds": dict(kinds),
+    })
+    return finish(rep, info)
+
+
+for _pid in ("C06", "C07", "C08", "C09", "C10", "C18"):
+    REGISTRY[_pid] = search_property
+
+
+# ----------------------------------------------------------------------------- text family
+from . import textchk  # noqa: E402
+
+
+def text_property(pid, rep, replay=None):
+    rep.broken = None
+    info = prove(pid, rep)
+    profiles = ("release", "checked") if pid == "C17" else ("release",)
+    if not build_impl(rep, profiles=profiles):
+        proof_coverage(rep, info, {})
+        return finish(rep, info)
+    tier = rep.tier if rep.broken is None else "thorough"
+    if pid == "C12":
+        stats, kinds, cases = textchk.check_c12(rep, tier)
+        rule = ("per sampled position: all 4096 from/to square pairs with and without promotion suffixes (first positions; a sample for "
+                "the rest), malformed/multi-byte strings, through the parser and through `position fen … moves s`; distinct = strings parsed")
+        distinct = stats.get("strings_parsed", 0)
+    elif pid == "C17":
+        stats, kinds, cases = textchk.check_c17(rep, tier)
+        rule = ("well-formed FENs (4, 5, 6 fields; FIDE-style and capturable-only en passant) and their single-character deletions, "
+                "insertions, replacements over a 40-symbol alphabet, field drops and duplications, plus hand-written hard cases; both "
+                "release and checked builds; distinct = distinct strings")
+        distinct = stats.get("strings", 0)
+    else:
+        stats, kinds, cases = textchk.check_c20(rep, tier)
+        rule = "games played into the record from corpus roots biased to promotions; every pgn record and show output parsed and compared with an independent Python oracle; distinct = records checked"
+        distinct = stats.get("records_checked", 0)
+    proof_coverage(rep, info, {
+        "evaluations": stats.get("ops_compared", 0), "distinct_nontrivial": distinct, "rule": rule,
+        "samples": [cases[0][:6]] if cases else [], "stats": dict(stats), "kinds": dict(kinds),
+    })
+    return finish(rep, info)
+
+
+for _pid in ("C12", "C17", "C20"):
+    REGISTRY[_pid] = text_property
